@@ -464,6 +464,11 @@ simcam_start(struct Camera* camera)
     self->streamer.is_running = 1;
     self->im.last_emitted_frame_id = -1;
     self->im.frame_id = -1;
+    // stop() fires the software trigger to release the streamer. Don't let
+    // that, or a request left over from the previous run, produce a frame in
+    // this run.
+    self->software_trigger.triggered = 0;
+    self->im.frame_wanted = 0;
     TRACE("SIMULATED CAMERA: thread launch");
     CHECK(thread_create(&self->streamer.thread,
                         (void (*)(void*))simulated_camera_streamer_thread,
